@@ -14,7 +14,9 @@ pub mod hc {
     ) -> error::SoapResult<YO>
     where
         YI: yaserde::YaSerialize + restrictions::CheckRestrictions,
-        YO: yaserde::YaDeserialize,
+        // every envelope type the generator emits derives these; asking for them here keeps the harness compiling when the
+        // helper starts to require more of the response type, so that such a change is judged by its behaviour
+        YO: yaserde::YaDeserialize + Default + std::fmt::Debug + Clone,
     {
         helpers::send_soap_request_using_client(client, url, credentials, req).await
     }
